@@ -1201,6 +1201,180 @@ class C16(SimpleSpec):
         return res
 
 
+
+class C17(SimpleSpec):
+    pid = "C17"
+    model_imports = ["Base", "Extracted", "Criteria", "Search", "AuditGraph", "DepGraph", "Resolve", "Show", "Suggest", "ShowSuggest"]
+    coq_files = ["Properties/C17.v"]
+    theorems = ["C17_suggested_pair_is_common", "C17_candidate_heals", "C17_dedup_merges_criteria", "C17_dedup_keeps_all_criteria"]
+    level_text = ("Theorems about the model of suggest_delta / compute_suggest: for every failing crate the (from, to) pair chosen lies "
+                  "in the reachable-from-root resp. reachable-from-target set of EVERY failed criterion (for any diffstat oracle), and "
+                  "certifying such a pair for a list carrying a failed criterion makes the crate certified for it (C17_candidate_heals, "
+                  "through the exact reachable sets of the failed search); de-duplication of suggestions unions the criteria of merged "
+                  "items (fact re-read from the source; the original defect F-C17 is fixed). PARTIAL: 'after certifying ALL suggestions "
+                  "vet succeeds' is exercised on the implementation (suggestions applied as audits, store re-resolved).")
+    level_note = ("Diffstats are the mock cache's (|to.major^2 - from.major^2|) and are an oracle of the model; git-revision targets "
+                  "(the extra delta of suggest_delta) are outside the model and only covered by the apply-and-recheck oracle; registry "
+                  "(import) suggestions and trust hints are not modelled.")
+    design_ref = "DESIGN.md §4 C17"
+    rule = ("failing stores from the C01 generators, locked and unlocked (with a mock crates.io index deciding which versions have "
+            "sources): several failing criteria per crate with different reachable sets, two versions of one crate, deltas in both "
+            "directions; non-trivial = at least one suggestion is made")
+    projection_doc = "the resolve report and the ordered suggestion list (package, from, to, criteria bitset, diffstat count)"
+    assumptions = ["mock cache diffstats", "mock crates.io index"]
+    quick_n = 150
+
+    def model_modules_paths(self):
+        return ["ShowSuggest"]
+
+    def gen_cases(self, rng, n):
+        out = []
+        for i in range(n):
+            c = gen.gen_unlocked_case(rng, f"s{i}") if i % 2 else gen.finalize(gen.gen_resolve_case(rng, f"s{i}"))
+            c["kind"] = "suggest"
+            c["suggest_network"] = c.get("mode") == "unlocked"
+            c.setdefault("registry", {"users": [], "packages": {}, "meta": {}})
+            out.append(c)
+        return out
+
+    def findings(self):
+        return []
+
+    def model_expr(self, o):
+        mi = o["model_input"]
+        if any("@git:" in n for n in o["tables"]["nodes"]):
+            return None
+        return f"sboth {coq(mi['majors'])} {coq(mi['git'])} {coq(mi['known'])} (resolve {coq(mi['graph'])} {coq(mi['store'])})"
+
+    def nontrivial(self, case, o, c):
+        return "(s " in o["obs"]
+
+    def tag(self, case, o, c):
+        return "suggestions" if "(s " in o["obs"] else "none"
+
+    def run(self, rng, tier, work, model_ok=True, ncases=None, replay=None):
+        # cases with git-revision nodes are outside the model: drop their model expression
+        orig = self.model_expr
+        res = None
+        try:
+            res = self._run(rng, tier, work, model_ok, ncases, replay)
+        finally:
+            self.model_expr = orig
+        return res
+
+    def _run(self, rng, tier, work, model_ok, ncases, replay):
+        n = ncases or (self.quick_n if tier == "quick" else self.thorough_n)
+        if replay:
+            with open(replay) as f:
+                r = json.load(f)
+            cases = [r.get("case", r)]
+            cases[0].setdefault("id", "replay")
+        else:
+            cases = load_corpus(self.pid) + self.gen_cases(rng, n)
+        cases = [gen.finalize(c) if "store_struct" in c and "store" not in c else c for c in cases]
+        obs = vetlib.run_harness([gen.strip_struct(c) for c in cases], os.path.join(work, "impl"))
+        exprs = []
+        for cid, o in obs.items():
+            if o["status"] == "ok":
+                e = self.model_expr(o)
+                if e:
+                    exprs.append((cid, e))
+        model = vetlib.run_model(exprs, os.path.join(work, "model"), self.model_imports) if model_ok else {}
+        res = {"cases": [c["id"] for c in cases], "mismatches": [], "oracle_failures": [], "samples": [],
+               "findings_seen": {}, "stats": {}}
+        bycase = {c["id"]: c for c in cases}
+        compared = 0
+        nontrivial = 0
+        seen = set()
+        stage2 = []
+        for cid, o in obs.items():
+            case = bycase[cid]
+            if o["status"] == "refused":
+                continue
+            if o["status"] != "ok":
+                res["mismatches"].append({"id": cid, "why": f"implementation {o['status']}: " + str(o.get("panic") or o.get("error"))[:300],
+                                          "case": gen.strip_struct(case)})
+                continue
+            if cid in model:
+                m = model[cid]
+                compared += 1
+                if m != o["obs"]:
+                    i, j = o["obs"].find("(suggest"), m.find("(suggest")
+                    res["mismatches"].append({"id": cid, "why": "suggestions or report differ" if not m.startswith("MODEL-ERROR") else m[:200],
+                                              "impl": o["obs"][i:i + 500], "model": m[j:j + 500], "case": gen.strip_struct(case)})
+            e = vetlib.parse_sexp(o["obs"])
+            rep = O.Report(e[1])
+            sug = e[2]
+            if sug[0] == "suggest" and len(sug) > 1:
+                if o["obs"] not in seen:
+                    seen.add(o["obs"])
+                    nontrivial += 1
+                # direct oracle 1: every suggestion is for a failing crate and names exactly its missing criteria
+                fails = rep.failures()
+                names = o["tables"]["nodes"]
+                bypkgname = {}
+                for i, f in fails.items():
+                    bypkgname.setdefault(names[i].split(":")[0], 0)
+                    bypkgname[names[i].split(":")[0]] |= f
+                for it in sug[1:]:
+                    pkg, crit = int(it[1]), int(it[4])
+                    if pkg not in fails:
+                        res["oracle_failures"].append({"id": cid, "what": f"an audit is suggested for {names[pkg]}, which does not fail", "finding": None,
+                                                       "case": gen.strip_struct(case)})
+                    elif crit & ~bypkgname[names[pkg].split(":")[0]]:
+                        res["oracle_failures"].append({"id": cid, "what": f"the audit suggested for {names[pkg]} names criteria the crate is not missing", "finding": None,
+                                                       "case": gen.strip_struct(case)})
+                # direct oracle 2 (stage 2): certify every suggestion, vet must pass
+                if "store_struct" in case:
+                    import copy
+                    st = copy.deepcopy(case["store_struct"])
+                    table = O.table_of(o["model_input"]["store"])
+                    vers = o["tables"]["versions"]
+                    crit_names = o["tables"]["criteria"]
+                    for k, it in enumerate(sug[1:]):
+                        pkg, frm, to, crit = int(it[1]), it[2], int(it[3]), int(it[4])
+                        cl = [crit_names[c] for c in O.minimal(table, O.unbits(crit))]
+                        name = names[pkg].split(":")[0]
+                        ent = {"criteria": cl, "notes": f"applied suggestion {k}"}
+                        if frm == "n":
+                            ent.update(kind="full", version=vers[to])
+                        else:
+                            ent.update(kind="delta", to=vers[to])
+                            ent["from"] = vers[int(frm)]
+                        st["audits"].setdefault(name, []).append(ent)
+                    c2 = dict(case)
+                    c2["id"] = cid + "-applied"
+                    c2["kind"] = "resolve"
+                    c2["store_struct"] = st
+                    stage2.append(gen.finalize(c2))
+            # guesses for certify
+            if len(res["samples"]) < 2 and "(s " in o["obs"]:
+                res["samples"].append({"id": cid, "audits": case["store"]["audits"][:500], "suggestions": o["obs"][o["obs"].find("(suggest"):][:300]})
+        if stage2:
+            obs2 = vetlib.run_harness([gen.strip_struct(c) for c in stage2], os.path.join(work, "impl2"))
+            healed = 0
+            for c2 in stage2:
+                o2 = obs2[c2["id"]]
+                if o2["status"] != "ok":
+                    res["oracle_failures"].append({"id": c2["id"], "what": f"after certifying the suggestions the store is {o2['status']}: {str(o2.get('error') or o2.get('panic'))[:200]}",
+                                                   "finding": None, "case": gen.strip_struct(c2)})
+                    continue
+                k = O.Report(o2["obs"]).kind
+                if k == "failvet":
+                    res["oracle_failures"].append({"id": c2["id"], "what": "after certifying every suggested audit for its suggested criteria vet still fails for missing audits",
+                                                   "finding": None, "case": gen.strip_struct(bycase[c2["id"][:-8]])})
+                else:
+                    healed += 1
+            res["stats"]["suggestion_sets_applied"] = len(stage2)
+            res["stats"]["healed_or_violation"] = healed
+        res["nontrivial"] = nontrivial
+        res["stats"].update({"harness_status": dict(Counter(o["status"] for o in obs.values())), "compared": compared})
+        if res["mismatches"]:
+            with open(os.path.join(work, "mismatches.json"), "w") as f:
+                json.dump(res["mismatches"][:20], f, indent=1)
+        return res
+
+
 import hist  # noqa: E402
 
 
@@ -1322,7 +1496,7 @@ class C13(HistorySpec):
     assumptions = C09.assumptions
 
 
-REGISTRY = {c.pid: c for c in [C01, C02, C04, C05, C06, C07, C08, C09, C10, C11, C12, C13, C16]}
+REGISTRY = {c.pid: c for c in [C01, C02, C04, C05, C06, C07, C08, C09, C10, C11, C12, C13, C16, C17]}
 
 
 def get(pid):
